@@ -1,4 +1,5 @@
 import Obao.Proofs.TransitNoPanic
+import Obao.Proofs.TransitFaults
 import Obao.Proofs.TransitAtoi
 /-!
 C17 — transit encryption round-trips, binds its inputs and honours version limits.
@@ -367,41 +368,85 @@ theorem no_panic (ops : List Op) (hff : FF ops) (o : Op) (ho : o.faultFree = tru
     (step (run init ops) o).2 ≠ .panic :=
   nopanic_step (archive_invariant ops hff) o ho
 
-/-! ### storage faults (finding F13)
+/-! ### a single failing storage `Put`
 
-The theorems above quantify over fault-free histories, as the property does. With a single failing storage `Put`
-during `trim` the full statement of `old_versions_until_min_raised` is FALSE for the code as it is — in the model
-(below, by kernel evaluation) and on the real code (streams `keysutil-faults` / `transit-endpoints-faults`, which
-replay the same history on every run). -/
+The theorems above quantify over fault-free histories, as the property does. Since the repair of F38 (`Persist` also
+rolls back `ArchiveMinVersion`) the decryption window also survives a storage `Put` that fails inside any of the
+transactional endpoint operations (rotate, config, trim — they run inside `StartTxStorage`, so the storage writes of
+the failed request are rolled back and `Persist` restores the policy object). It does NOT survive a `Put` failing inside
+`restore`, which writes the archive and the policy with two `Put`s outside any transaction (finding F39): the full
+statement stays false, witnessed below by kernel evaluation and replayed on the real code on every run by the streams
+`keysutil-faults` / `transit-endpoints-faults`. -/
 
-/-- `old_versions_until_min_raised` with storage fault plans allowed in the later history -/
+/-- `old_versions_until_min_raised` when the later history may also plan storage faults and contain restores, all of
+    which fail (so the key ring is never legitimately replaced) -/
 def old_versions_under_faults_full : Prop :=
   ∀ (ops : List Op) (_ : FF ops) (ver : Int) (ctx aad nonce plain : String) (h v : Nat)
     (_ : (encrypt (run init ops) ver ctx aad nonce plain).2 = .okArt h v)
-    (later : List Op) (_ : ∀ o ∈ later, o.keepsRingOrFault = true),
+    (later : List Op) (_ : ∀ o ∈ later, o.keepsRingOrFaultOrRestore = true)
+    (_ : restoresFail (encrypt (run init ops) ver ctx aad nonce plain).1 later = true),
     ∃ p2, (run (encrypt (run init ops) ver ctx aad nonce plain).1 later).pol = some p2 ∧
       (p2.minDec ≤ v →
         (decrypt (run (encrypt (run init ops) ver ctx aad nonce plain).1 later) h .same .same ctx aad).2 = .okPlain plain)
 
-/-- **old_versions_under_faults_cex (F13).** Create, rotate twice, encrypt (version 3); set both minimum versions to
-1; `trim 1` whose archive `Put` fails; `trim 1` again (succeeds); raise `min_decryption_version` to 3 and lower it
-to 1: the version-3 ciphertext, inside `[1, 3]`, no longer decrypts — `Persist`'s rollback left `ArchiveMinVersion`
-advanced, the retried trim did not cut the stored archive, and version 3 was reloaded with the key of version 2. -/
+/-- **old_versions_under_faults_partial.** `old_versions_until_min_raised` holds verbatim when the later history
+plans storage faults (any failing `Put`, first, second, ...) in front of rotate, config or trim operations — any
+number of such failed operations, retried or not, interleaved with everything else that keeps the ring: at the end
+the ciphertext decrypts iff `min_decryption_version ≤ v`, and is refused as too old otherwise. -/
+theorem old_versions_under_faults_partial (ops : List Op) (hff : FF ops) (ver : Int) (ctx aad nonce plain : String)
+    (h v : Nat) (henc : (encrypt (run init ops) ver ctx aad nonce plain).2 = .okArt h v)
+    (later : List Op) (ht : txFaults false later = true) :
+    ∃ p2, (run (encrypt (run init ops) ver ctx aad nonce plain).1 later).pol = some p2 ∧ v ≤ p2.latest ∧
+      ((decrypt (run (encrypt (run init ops) ver ctx aad nonce plain).1 later) h .same .same ctx aad).2 = .okPlain plain
+        ↔ p2.minDec ≤ v) ∧
+      (¬ p2.minDec ≤ v →
+        (decrypt (run (encrypt (run init ops) ver ctx aad nonce plain).1 later) h .same .same ctx aad).2 = .err "tooOld") := by
+  have hi := archive_invariant ops hff
+  generalize run init ops = st at *
+  obtain ⟨p, a, hp, he, hv, hh, hst⟩ := encrypt_ok_spec henc
+  obtain ⟨s1, s2, s3, s4, s5, s6, s7, _⟩ := encryptArt_spec he
+  obtain ⟨k1, k2, k3, k4⟩ := encryptArt_ok (hi.pol p hp) he
+  have hi1 : Inv (encrypt st ver ctx aad nonce plain).1 := inv_encrypt hi ver ctx aad nonce plain
+  have ha1 : artAt (encrypt st ver ctx aad nonce plain).1 h .enc = some a := by
+    rw [hst, hh, ← k4]; exact artAt_intern st a
+  have hp1 : (encrypt st ver ctx aad nonce plain).1.pol = some p := by rw [hst]; exact hp
+  generalize (encrypt st ver ctx aad nonce plain).1 = st1 at *
+  obtain ⟨ha2, p2, hp2, t1, t2, t3, t4, t6, t5⟩ := later_setup_faults hi1 ha1 hp1 k3 later ht
+  subst hv
+  exact ⟨p2, hp2, t4, decrypt_window_core ha2 hp2 t1 t2 t4 t6 t5 s1 s4 s5 s6 k2⟩
+
+/-- **old_versions_under_faults_cex (F39).** Create, make the key exportable, take a backup, rotate, encrypt
+(version 2); then `restore` (force) whose policy `Put` — the third of the operation — fails after the backup's
+archive was written; rotate; raise `min_decryption_version` to 3 and lower it to 1. The version-2 ciphertext, inside
+`[1, 3]`, is refused: the existing ring was paired with the backup's shorter archive, the rotation padded it with an
+empty entry for version 2, and that entry was loaded back into the key map. -/
 theorem old_versions_under_faults_cex : ¬ old_versions_under_faults_full := by
   intro hfull
-  obtain ⟨p2, hp2, hdec⟩ := hfull [.new .aes256 false false, .rotate, .rotate] (by unfold FF; decide) 0 "-" "-" "-" "70" 1 3 (by decide)
-    [.config (some 1) (some 1) none none none, .failPut 1, .trim 1, .trim 1,
-     .config (some 3) (some 3) none none none, .config (some 1) none none none none] (by decide)
+  obtain ⟨p2, hp2, hdec⟩ := hfull
+    [.new .aes256 false false, .config none none none (some true) (some true), .backup, .rotate]
+    (by unfold FF; decide) 0 "-" "-" "-" "70" 1 2 (by decide)
+    [.failPut 3, .restore 1 true, .rotate, .config (some 3) none none none none, .config (some 1) none none none none]
+    (by decide) (by decide)
   have hp : p2.minDec = 1 := by
-    have : (run (encrypt (run init [.new .aes256 false false, .rotate, .rotate]) 0 "-" "-" "-" "70").1
-      [.config (some 1) (some 1) none none none, .failPut 1, .trim 1, .trim 1,
-       .config (some 3) (some 3) none none none, .config (some 1) none none none none]).pol.map (·.minDec) = some 1 := by
-      decide
+    have : (run (encrypt (run init [.new .aes256 false false, .config none none none (some true) (some true), .backup,
+        .rotate]) 0 "-" "-" "-" "70").1
+      [.failPut 3, .restore 1 true, .rotate, .config (some 3) none none none none,
+       .config (some 1) none none none none]).pol.map (·.minDec) = some 1 := by decide
     rw [hp2] at this
     exact Option.some.inj this
   have hbad := hdec (by omega)
   revert hbad
   decide
+
+/-- the same history with the fault inside `trim` instead (the F38 scenario) is covered by
+    `old_versions_under_faults_partial`: its hypothesis holds and the ciphertext still decrypts -/
+example :
+    txFaults false [.config (some 1) (some 1) none none none, .failPut 1, .trim 1, .trim 1,
+                    .config (some 3) (some 3) none none none, .config (some 1) none none none none] = true ∧
+    (decrypt (run (encrypt (run init [.new .aes256 false false, .rotate, .rotate]) 0 "-" "-" "-" "70").1
+      [.config (some 1) (some 1) none none none, .failPut 1, .trim 1, .trim 1,
+       .config (some 3) (some 3) none none none, .config (some 1) none none none none]) 1 .same .same "-" "-").2
+      = .okPlain "70" := by decide
 
 /-! ### non-vacuity: concrete histories meeting the hypotheses -/
 
